@@ -692,6 +692,139 @@ def expand_aug(st):
   return new
 
 
+class _Unroll(ast.NodeTransformer):
+  """for x in (c1, c2): B   ->   B[x := c1]; B[x := c2]
+
+  for a loop over a short display of literals (at most 4 elements, each a
+  literal or a tuple of literals), without break / else, whose variables are
+  not re-assigned in the body.  A guard `if c: continue` at the top level of
+  the body becomes `if not c: <rest of the body>`.  String formatting of the
+  substituted constants is folded ('K_%d' % 0 -> 'K_0').  Two copies of a
+  block and a loop over their differences are the same program."""
+
+  MAX_ELEMS = 4
+  MAX_BODY = 30
+
+  def __init__(self, known_iters=()):
+    # loops the reference function has itself are part of its shape: only
+    # loops it does not have are unrolled (inventory-relative, see inline.py)
+    self.known_iters = set(known_iters)
+
+  def _literal(self, e):
+    try:
+      ast.literal_eval(e)
+      return True
+    except (ValueError, SyntaxError, TypeError):
+      return False
+
+  def _structure_continues(self, body):
+    out = []
+    for i, st in enumerate(body):
+      if isinstance(st, ast.If) and not st.orelse and len(st.body) == 1 and \
+          isinstance(st.body[0], ast.Continue):
+        rest = self._structure_continues(body[i + 1:])
+        if rest is None:
+          return None
+        if rest:
+          out.append(ast.copy_location(ast.If(
+              test=_negate(st.test), body=rest, orelse=[]), st))
+        return out
+      if any(isinstance(x, (ast.Continue, ast.Break)) for x in ast.walk(st)):
+        return None
+      out.append(st)
+    return out
+
+  def visit_For(self, n):
+    self.generic_visit(n)
+    it = n.iter
+    if ast.unparse(it) in self.known_iters:
+      return n
+    if n.orelse or not isinstance(it, (ast.Tuple, ast.List)) or not (
+        1 < len(it.elts) <= self.MAX_ELEMS) or not all(
+            self._literal(e) for e in it.elts):
+      return n
+    if isinstance(n.target, ast.Name):
+      names = [n.target.id]
+    elif isinstance(n.target, ast.Tuple) and all(
+        isinstance(t, ast.Name) for t in n.target.elts):
+      names = [t.id for t in n.target.elts]
+      if not all(isinstance(e, ast.Tuple) and len(e.elts) == len(names)
+                 for e in it.elts):
+        return n
+    else:
+      return n
+    if sum(1 for st in n.body for _ in ast.walk(st)) > 40 * self.MAX_BODY:
+      return n
+    for st in n.body:
+      for x in ast.walk(st):
+        if isinstance(x, ast.Name) and x.id in names and isinstance(
+            x.ctx, (ast.Store, ast.Del)):
+          return n
+        if isinstance(x, (ast.Lambda, ast.FunctionDef)):
+          return n          # late binding of the loop variable
+    body = self._structure_continues(n.body)
+    if body is None:
+      return n
+    import copy
+    out = []
+    for e in it.elts:
+      vals = [e] if len(names) == 1 else list(e.elts)
+      mapping = dict(zip(names, vals))
+
+      class _S(ast.NodeTransformer):
+        def visit_Name(self_, x):
+          if x.id in mapping and isinstance(x.ctx, ast.Load):
+            return ast.copy_location(copy.deepcopy(mapping[x.id]), x)
+          return x
+      for st in body:
+        out.append(_fold_format(_S().visit(copy.deepcopy(st))))
+    return out
+
+
+def _fold_format(node):
+  """'%d' % 3, '{}'.format(3), f'{3}' with literal operands -> the string"""
+  class _F(ast.NodeTransformer):
+    def visit_BinOp(self, b):
+      self.generic_visit(b)
+      if isinstance(b.op, ast.Mod) and isinstance(
+          b.left, ast.Constant) and isinstance(b.left.value, str):
+        try:
+          return ast.copy_location(ast.Constant(
+              value=b.left.value % ast.literal_eval(b.right)), b)
+        except (ValueError, SyntaxError, TypeError):
+          pass
+      return b
+
+    def visit_Call(self, c):
+      self.generic_visit(c)
+      if isinstance(c.func, ast.Attribute) and c.func.attr == 'format' and \
+          isinstance(c.func.value, ast.Constant) and isinstance(
+              c.func.value.value, str) and not c.keywords:
+        try:
+          return ast.copy_location(ast.Constant(value=c.func.value.value.format(
+              *[ast.literal_eval(a) for a in c.args])), c)
+        except (ValueError, SyntaxError, TypeError, IndexError, KeyError):
+          pass
+      return c
+
+    def visit_JoinedStr(self, j):
+      self.generic_visit(j)
+      try:
+        parts = []
+        for v in j.values:
+          if isinstance(v, ast.Constant):
+            parts.append(str(v.value))
+          elif isinstance(v, ast.FormattedValue) and v.conversion == -1 and \
+              v.format_spec is None:
+            parts.append(format(ast.literal_eval(v.value)))
+          else:
+            return j
+        return ast.copy_location(ast.Constant(value=''.join(parts)), j)
+      except (ValueError, SyntaxError, TypeError):
+        return j
+  return _F().visit(node)
+
+
 def canonicalise(tree):
   """Behaviour-preserving normal form applied to every module before any rule
   reads it, so that no rule depends on the spelling: keyword arguments of a
